@@ -34,6 +34,15 @@ CHECKS = {
             'Reference = cutting planes with separation points verified as members; non-convergence / artificial bounds / cone '
             'solver failures are inconclusive; tolerance 1e-6 (LP) / 2e-4 (conic) relative.',
             'DESIGN.md section 4 / C02'),
+    'C08': ('property-based testing with a strong-duality oracle: both programs returned by do_math(primal=True/False) are solved '
+            'with the same solver interface and must sum to zero (weak duality reported separately)',
+            'Generated-input search over deterministic LP/SOC/exp-cone models (8 bound patterns per variable incl. fixed at c!=0, '
+            '<=,>=,== rows, norm/square/quad/p-norm/power/gmean/exp/log/entropy/softplus/perspective atoms, rsocone/expcone/kldiv '
+            'constraints, ro and dro front ends) and over ro models with robust rows (second SOC-dual layout, mixed SOC+exp cones). '
+            'Sampling, not proof.',
+            'Trusts HiGHS (LP) and ECOS (conic) optima; ECOS "close to optimal"/failed statuses are inconclusive; tolerance 1e-6 / 2e-4 '
+            'relative; models are feasible, bounded and strictly feasible by construction.',
+            'DESIGN.md section 4 / C08'),
 }
 
 NOT_YET = 'check not built yet in this round (see DESIGN.md section 4 for the planned generator and oracle)'
